@@ -20,6 +20,31 @@ def refundedAmt (d : String) (p : Packet) : Nat :=
 
 def refundableSum (c : CState) (d : String) : Nat := AMap.sumBy (refundedAmt d) c.inflight
 
+/-- weight of a refundable packet selected by a predicate on (denom, receiver) -/
+def refW (P : String → String → Bool) (p : Packet) : Nat :=
+  if P p.coin.denom p.receiver && (p.status == .ackFailure || p.status == .timedOut) then p.coin.amount else 0
+
+/-- what a chain packet still carries toward receiver `S` in denom `D`: in flight or delivered -/
+def locPkt (S D : String) (p : ChainPkt) : Nat :=
+  if p.coin.denom = D ∧ p.receiver = S ∧ (p.state = .pending ∨ p.state = .delivered) then p.coin.amount else 0
+
+def locW (S D : String) (pkts : List ChainPkt) : Nat := (pkts.map (locPkt S D)).sum
+
+/-- amount a message sends toward `S` in denom `D` by IBC transfer -/
+def trEff (S D : String) (m : SubMsg) : Nat :=
+  match m.msg with
+  | .transfer _ _ _ recv coin _ _ => if coin.denom = D ∧ recv = S then coin.amount else 0
+  | _ => 0
+
+def trSum (S D : String) : List SubMsg → Nat
+  | [] => 0
+  | m :: rest => trEff S D m + trSum S D rest
+
+theorem trSum_append (S D : String) (a b : List SubMsg) : trSum S D (a ++ b) = trSum S D a + trSum S D b := by
+  induction a with
+  | nil => simp [trSum]
+  | cons m r ih => simp only [List.cons_append, trSum, ih]; omega
+
 def pendTotal (c : CState) : Nat := ((c.batches.find? c.pendingId).map (·.total)).getD 0
 
 /-- the packet coupling between chain and contract (all denoms) -/
@@ -119,20 +144,22 @@ theorem dispatch_mid {f : Faults} {d d' : Disp} {m : SubMsg} (X : String) (hp : 
     ∧ d'.w.c.batches = d.w.c.batches ∧ d'.w.c.pendingId = d.w.c.pendingId ∧ d'.w.c.st = d.w.c.st
     ∧ d'.w.c.config = d.w.c.config
     ∧ refundableSum d'.w.c X = refundableSum d.w.c X
-    ∧ (∀ id wt, d'.w.c.waiting.find? id = some wt → d.w.c.waiting.find? id = some wt) := by
+    ∧ (∀ id wt, d'.w.c.waiting.find? id = some wt → d.w.c.waiting.find? id = some wt)
+    ∧ (∀ P, AMap.sumBy (refW P) d'.w.c.inflight = AMap.sumBy (refW P) d.w.c.inflight)
+    ∧ (∀ S D, locW S D d'.w.pkts = locW S D d.w.pkts + trEff S D m) := by
   unfold dispatch at h
   cases hm : m.msg with
   | createDenom sender sub =>
     simp only [hm, Prod.mk.injEq] at h
     obtain ⟨rfl, _⟩ := h
-    exact ⟨hp, rfl, by simp [balEff, hm], by simp [supEff, hm], rfl, rfl, rfl, rfl, rfl, fun _ _ h => h⟩
+    exact ⟨hp, rfl, by simp [balEff, hm], by simp [supEff, hm], rfl, rfl, rfl, rfl, rfl, fun _ _ h => h, fun _ => rfl, fun _ _ => by simp [trEff, hm]⟩
   | mint sender denom amount to =>
     simp only [hm] at h
     split at h
     · cases h
     · simp only [Prod.mk.injEq, and_true] at h
       subst h
-      refine ⟨⟨hp.sender, hp.seqLt, hp.nodup, hp.keyLt, hp.p2⟩, rfl, ?_, ?_, rfl, rfl, rfl, rfl, rfl, fun _ _ h => h⟩
+      refine ⟨⟨hp.sender, hp.seqLt, hp.nodup, hp.keyLt, hp.p2⟩, rfl, ?_, ?_, rfl, rfl, rfl, rfl, rfl, fun _ _ h => h, fun _ => rfl, fun _ _ => by simp [trEff, hm]⟩
       · simp only [balEff, hm, Bal.add_apply]
         by_cases hc : to = d.w.self ∧ denom = X
         · obtain ⟨h1, h2⟩ := hc; subst h1 h2; simp
@@ -151,7 +178,7 @@ theorem dispatch_mid {f : Faults} {d d' : Disp} {m : SubMsg} (X : String) (hp : 
       simp only [Bool.or_eq_true, decide_eq_true_eq, not_or, Nat.not_lt] at hc
       simp only [Prod.mk.injEq, and_true] at h
       subst h
-      refine ⟨⟨hp.sender, hp.seqLt, hp.nodup, hp.keyLt, hp.p2⟩, rfl, ?_, ?_, rfl, rfl, rfl, rfl, rfl, fun _ _ h => h⟩
+      refine ⟨⟨hp.sender, hp.seqLt, hp.nodup, hp.keyLt, hp.p2⟩, rfl, ?_, ?_, rfl, rfl, rfl, rfl, rfl, fun _ _ h => h, fun _ => rfl, fun _ _ => by simp [trEff, hm]⟩
       · simp only [balEff, hm, Bal.sub_apply]
         split
         · rename_i hh
@@ -181,7 +208,7 @@ theorem dispatch_mid {f : Faults} {d d' : Disp} {m : SubMsg} (X : String) (hp : 
       · rename_i b hb
         simp only [Prod.mk.injEq, and_true] at h
         subst h
-        refine ⟨⟨hp.sender, hp.seqLt, hp.nodup, hp.keyLt, hp.p2⟩, rfl, ?_, by simp [supEff, hm], rfl, rfl, rfl, rfl, rfl, fun _ _ h => h⟩
+        refine ⟨⟨hp.sender, hp.seqLt, hp.nodup, hp.keyLt, hp.p2⟩, rfl, ?_, by simp [supEff, hm], rfl, rfl, rfl, rfl, rfl, fun _ _ h => h, fun _ => rfl, fun _ _ => by simp [trEff, hm]⟩
         simp only [balEff, hm]
         by_cases hto : to = d.w.self
         · subst hto
@@ -199,7 +226,7 @@ theorem dispatch_mid {f : Faults} {d d' : Disp} {m : SubMsg} (X : String) (hp : 
       · rename_i b hb
         simp only [Prod.mk.injEq, and_true] at h
         subst h
-        refine ⟨⟨hp.sender, hp.seqLt, hp.nodup, hp.keyLt, hp.p2⟩, rfl, ?_, by simp [supEff, hm], rfl, rfl, rfl, rfl, rfl, fun _ _ h => h⟩
+        refine ⟨⟨hp.sender, hp.seqLt, hp.nodup, hp.keyLt, hp.p2⟩, rfl, ?_, by simp [supEff, hm], rfl, rfl, rfl, rfl, rfl, fun _ _ h => h, fun _ => rfl, fun _ _ => by simp [trEff, hm]⟩
         simp only [balEff, hm]
         by_cases hto : to = d.w.self
         · subst hto
@@ -212,15 +239,15 @@ theorem dispatch_mid {f : Faults} {d d' : Disp} {m : SubMsg} (X : String) (hp : 
   | wasmExec sender c p =>
     simp only [hm, Prod.mk.injEq] at h
     obtain ⟨rfl, _⟩ := h
-    exact ⟨hp, rfl, by simp [balEff, hm], by simp [supEff, hm], rfl, rfl, rfl, rfl, rfl, fun _ _ h => h⟩
+    exact ⟨hp, rfl, by simp [balEff, hm], by simp [supEff, hm], rfl, rfl, rfl, rfl, rfl, fun _ _ h => h, fun _ => rfl, fun _ _ => by simp [trEff, hm]⟩
   | swapIn a b c e =>
     simp only [hm, Prod.mk.injEq] at h
     obtain ⟨rfl, _⟩ := h
-    exact ⟨hp, rfl, by simp [balEff, hm], by simp [supEff, hm], rfl, rfl, rfl, rfl, rfl, fun _ _ h => h⟩
+    exact ⟨hp, rfl, by simp [balEff, hm], by simp [supEff, hm], rfl, rfl, rfl, rfl, rfl, fun _ _ h => h, fun _ => rfl, fun _ _ => by simp [trEff, hm]⟩
   | swapOut a b c e =>
     simp only [hm, Prod.mk.injEq] at h
     obtain ⟨rfl, _⟩ := h
-    exact ⟨hp, rfl, by simp [balEff, hm], by simp [supEff, hm], rfl, rfl, rfl, rfl, rfl, fun _ _ h => h⟩
+    exact ⟨hp, rfl, by simp [balEff, hm], by simp [supEff, hm], rfl, rfl, rfl, rfl, rfl, fun _ _ h => h, fun _ => rfl, fun _ _ => by simp [trEff, hm]⟩
   | transfer ch port sndr recv coin t memo =>
     obtain ⟨hra, hch, hwt⟩ := ht ch port sndr recv coin t memo hm
     simp only [hm, hra, ↓reduceIte] at h
@@ -239,7 +266,7 @@ theorem dispatch_mid {f : Faults} {d d' : Disp} {m : SubMsg} (X : String) (hp : 
           | none => rfl
           | some e => exact absurd (hp.keyLt _ _ hf) (Nat.lt_irrefl _)
         subst hc'
-        refine ⟨⟨?_, ?_, ?_, ?_, ?_⟩, rfl, ?_, by simp [supEff, hm], rfl, rfl, rfl, rfl, ?_, ?_⟩
+        refine ⟨⟨?_, ?_, ?_, ?_, ?_⟩, rfl, ?_, by simp [supEff, hm], rfl, rfl, rfl, rfl, ?_, ?_, ?_, ?_⟩
         · intro p hpm
           simp only [List.mem_append, List.mem_singleton] at hpm
           rcases hpm with hpm | hpm
@@ -292,6 +319,12 @@ theorem dispatch_mid {f : Faults} {d d' : Disp} {m : SubMsg} (X : String) (hp : 
           split at hf
           · cases hf
           · exact hf
+        · intro P
+          rw [AMap.sumBy_insert_new _ _ hfresh]
+          simp [refW]
+        · intro S D
+          simp only [locW, List.map_append, List.map_cons, List.map_nil, List.sum_append, List.sum_cons, List.sum_nil,
+            trEff, hm, locPkt, true_or, and_true, Nat.add_zero]
       · cases h
     · split at h
       · rename_i c' o hr
@@ -307,23 +340,26 @@ theorem dispatchAll_mid {f : Faults} {d dF : Disp} {ms : List SubMsg} (X : Strin
     ∧ (dF.w.supply X : Int) = d.w.supply X + supSum X ms
     ∧ dF.w.c.batches = d.w.c.batches ∧ dF.w.c.pendingId = d.w.c.pendingId ∧ dF.w.c.st = d.w.c.st
     ∧ dF.w.c.config = d.w.c.config
-    ∧ refundableSum dF.w.c X = refundableSum d.w.c X := by
+    ∧ refundableSum dF.w.c X = refundableSum d.w.c X
+    ∧ (∀ P, AMap.sumBy (refW P) dF.w.c.inflight = AMap.sumBy (refW P) d.w.c.inflight)
+    ∧ (∀ S D, locW S D dF.w.pkts = locW S D d.w.pkts + trSum S D ms) := by
   induction ms generalizing d with
   | nil =>
     have := dispatchAll_nil_ok h
     subst this
-    exact ⟨hp, rfl, by simp [balSum], by simp [supSum], rfl, rfl, rfl, rfl, rfl⟩
+    exact ⟨hp, rfl, by simp [balSum], by simp [supSum], rfl, rfl, rfl, rfl, rfl, fun _ => rfl, fun _ _ => by simp [trSum]⟩
   | cons m rest ih =>
     obtain ⟨d1, h1, h2⟩ := dispatchAll_cons_ok h
-    obtain ⟨a1, a2, a3, a4, a5, a6, a7, a8, a9, a10⟩ := dispatch_mid X hp (ht m (by simp)) h1
+    obtain ⟨a1, a2, a3, a4, a5, a6, a7, a8, a9, a10, a11, a12⟩ := dispatch_mid X hp (ht m (by simp)) h1
     have ht' : ∀ m' ∈ rest, Tracked d1.w.c m' := by
       intro m' hm' ch port sndr recv coin t memo hmsg
       obtain ⟨b1, b2, b3⟩ := ht m' (List.mem_cons_of_mem _ hm') ch port sndr recv coin t memo hmsg
       refine ⟨b1, by rw [a8]; exact b2, ?_⟩
       intro wt hwt
       exact b3 wt (a10 _ _ hwt)
-    obtain ⟨c1, c2, c3, c4, c5, c6, c7, c8, c9⟩ := ih a1 ht' h2
-    refine ⟨c1, by rw [c2, a2], ?_, ?_, by rw [c5, a5], by rw [c6, a6], by rw [c7, a7], by rw [c8, a8], by rw [c9, a9]⟩
+    obtain ⟨c1, c2, c3, c4, c5, c6, c7, c8, c9, c10, c11⟩ := ih a1 ht' h2
+    refine ⟨c1, by rw [c2, a2], ?_, ?_, by rw [c5, a5], by rw [c6, a6], by rw [c7, a7], by rw [c8, a8], by rw [c9, a9],
+      fun P => by rw [c10, a11], fun S D => by rw [c11, a12]; simp only [trSum]; omega⟩
     · rw [a2] at c3
       simp only [balSum]
       omega
